@@ -10,4 +10,4 @@ func SelfTestAll() error {
 	return nil
 }
 
-var selfTests = []func() error{SelfTestCurve}
+var selfTests = []func() error{SelfTestCurve, SelfTestH2C, SelfTestVectors}
